@@ -426,6 +426,12 @@ package corebgp
 //@   ghostvar bodyRead bool = true
 //@   at select#5 case 1 set mark = allocmark()
 //@   loop#0 invariant [mark] mark <= allocmark()
+//@   at select#0 case 0 assert [reader_escapes_on_its_own_close_channel] selchan == f.closeReaderCh
+//@   at select#1 case 0 assert [reader_escapes_on_its_own_close_channel] selchan == f.closeReaderCh
+//@   at select#2 case 0 assert [reader_escapes_on_its_own_close_channel] selchan == f.closeReaderCh
+//@   at select#3 case 0 assert [reader_escapes_on_its_own_close_channel] selchan == f.closeReaderCh
+//@   at select#4 case 0 assert [reader_escapes_on_its_own_close_channel] selchan == f.closeReaderCh
+//@   at select#5 case 0 assert [reader_escapes_on_its_own_close_channel] selchan == f.closeReaderCh
 //@   at call ReadFull#0 assert [header_is_19_octets] len(arg1) == 19
 //@   at call ReadFull#0 after set hdrRead = result1 == nil
 //@   at call ReadFull#0 after set bodyRead = true
@@ -476,6 +482,14 @@ package corebgp
 //@   at select#1 case 1 set echoTo = result.to
 //@   at select#2 case 1 assert [state_error_reported_verbatim] sendval == err
 //@   at call sendNotification#0 assert [cease] arg1.Code == 6 && arg1.Subcode == 0 && len(arg1.Data) == 0
+//@   ghostvar inState int = 0
+//@   at call idle#0 set inState = 1
+//@   at call connect#0 set inState = 2
+//@   at call active#0 set inState = 3
+//@   at call openSent#0 set inState = 4
+//@   at call openConfirm#0 set inState = 5
+//@   at call established#0 set inState = 6
+//@   loop#0 invariant [offered_transition_names_the_state_the_fsm_is_in] t.from == inState
 //@   at call idle#0 assert [approved] echoTo == 1
 //@   at call connect#0 assert [approved] echoTo == 2
 //@   at call active#0 assert [approved] echoTo == 3
@@ -492,6 +506,7 @@ package corebgp
 // literal address would send twice; unreachable for the literal IPs corebgp
 // builds the address from: not claimed, see DESIGN section 8 "latent".)
 //@ func fsm.dialPeer$1 ()
+//@   at call DialContext#0 assert [dials_the_configured_remote_address_and_port] arg3 == joinHostPort(addrString(f.peer.config.RemoteAddress), itoaStr(f.peer.options.port))
 //@   local dialResultCh #0 chan *dialResult
 //@   local f #0 *fsm
 //@   requires f != nil && f.peer != nil && dialResultCh != nil && f.dialResultCh != nil && !chanClosed(f.dialResultCh)
